@@ -38,6 +38,13 @@ RULE = ("per valid blob (4 hashes x positions, both layouts): all truncations, a
         "indefinite / non-minimal lengths, wrong tags and classes, high tag numbers, INTEGER/OID content edits), key-identifier fields at {0,1,2,31,32,2^31-1,2^31,2^32-1}, "
         "byte insert/delete/substitute, random bytes; with the root key loaded and with an empty cache; non-trivial = distinct outcome (value / error class) on a distinct input")
 
+# the model (like the code it mirrors) materialises `key_length` octets; once the decoder bounds the declared length by the
+# input size, the huge declared lengths are part of the model-compared unit too
+MODEL_BOUNDS_DECLARED_LENGTHS = True
+
+# generous per-call budgets for blobs of a few hundred octets (a normal unprotect takes ~1 ms and no measurable memory)
+WORK_SECONDS, WORK_MBYTES = 3.0, 256
+
 DELIBERATE = {"ValueError", "NotImplementedError", "NotEnoughData", "InvalidTag", "InvalidUnwrap"}
 
 
@@ -71,7 +78,25 @@ def corpus(ctx: Ctx):
     blobs = []
     for hid, pos, trailing in ((4, (361, 17, 13), False), (2, (361, 31, 31), True), (1, (362, 0, 0), False), (3, (361, 5, 31), False)):
         blobs.append(([e2e.root_spec(hid)], hostile.valid_blob(hid=hid, pos=pos, trailing=trailing)))
+    # blobs protected with the group PUBLIC key (DH small group, ECDH): unprotect takes the public-key branch of get_kek
+    # (positions close to (31,31): short derivation chains keep the symbolic key terms - and the model's bignum arithmetic on them - small)
+    for hid, pos, mode in ((4, (361, 31, 29), "DH"), (2, (361, 31, 31), "ECDH_P256"), (3, (361, 30, 31), "ECDH_P384")):
+        blobs.append(hostile.valid_blob_pub(hid=hid, pos=pos, mode=mode))
     return blobs
+
+
+def _pub_edits(blob):
+    """key_info edits for the model-compared unit"""
+    out = []
+    for m in hostile.pubkey_field_edits(blob):
+        big = False
+        for magic in (b"DHPB", b"ECK1", b"ECK3", b"ECK5"):
+            i = m.find(magic)
+            if i >= 0 and int.from_bytes(m[i + 4 : i + 8], "little") >= (1 << 20):
+                big = True
+        if not big or MODEL_BOUNDS_DECLARED_LENGTHS:
+            out.append(m)
+    return out
 
 
 def gen_cases(ctx: Ctx):
@@ -79,9 +104,10 @@ def gen_cases(ctx: Ctx):
     seen = set()
     for n, (roots, blob) in enumerate(corpus(ctx)):
         step = 1 if ctx.thorough else (5 if n == 0 else 23)
-        muts = list(hostile.mutations(blob, ctx.rng, ctx.thorough and n == 0, flips_step=step)) + list(hostile.keyid_field_edits(blob))
+        muts = list(hostile.mutations(blob, ctx.rng, ctx.thorough and n == 0, flips_step=step)) + list(hostile.keyid_field_edits(blob)) \
+            + _pub_edits(blob)
         if not ctx.thorough and n > 0:
-            muts = muts[:: 4]
+            muts = muts[:: (4 if n < 4 else 12)] + _pub_edits(blob)
         for m in [blob] + muts:
             if m in seen:
                 continue
@@ -102,17 +128,32 @@ def oracles(ctx: Ctx):
     from ..core import run_impl
     from ..val import dec, enc
 
-    roots = [e2e.root_spec(4)]
-    blob = hostile.valid_blob(hid=4, symbolic=False)
     n = 0
-    for m in [blob] + list(hostile.mutations(blob, ctx.rng, False, flips_step=(7 if not ctx.thorough else 1))) + list(hostile.keyid_field_edits(blob)):
-        n += 1
-        out = dec(run_impl(lambda a: e2e.impl_unprotect(a, symbolic=False), [roots, m]))
-        why = pred([roots, m], out)
-        if why:
-            ctx.violation("failing-input", "oracle:hostile.real", {"unit": "hostile.real", "input": enc([roots, m])[-2000:], "why": why},
-                          key="hostile.real:" + why[:40])
-            break
+    corp = [([e2e.root_spec(4)], hostile.valid_blob(hid=4, symbolic=False)), hostile.valid_blob_pub(hid=4, mode="DH", symbolic=False),
+            hostile.valid_blob_pub(hid=2, mode="ECDH_P256", symbolic=False)]
+    for roots, blob in corp:
+        ok = dec(run_impl(lambda a: e2e.impl_unprotect(a, symbolic=False), [roots, blob]))
+        if ok != hostile.PLAIN:
+            ctx.violation("no-failing-input-found", "oracle:hostile.real.corpus", {"why": f"corpus blob does not decrypt with the real crypto: {str(ok)[:60]}"})
+            return
+        import resource
+        import time as _time
+
+        for m in list(hostile.pubkey_field_edits(blob)) + list(hostile.keyid_field_edits(blob)) \
+                + list(hostile.mutations(blob, ctx.rng, False, flips_step=(11 if not ctx.thorough else 1))):
+            n += 1
+            rss0, t0 = resource.getrusage(resource.RUSAGE_SELF).ru_maxrss, _time.time()
+            out = dec(run_impl(lambda a: e2e.impl_unprotect(a, symbolic=False), [roots, m]))
+            dt, drss = _time.time() - t0, (resource.getrusage(resource.RUSAGE_SELF).ru_maxrss - rss0) // 1024
+            why = pred([roots, m], out)
+            if not why and (dt > WORK_SECONDS or drss > WORK_MBYTES):
+                why = (f"work is not proportional to the input: a {len(m)}-octet blob took {dt:.1f} s and {drss} MB of additional memory "
+                       f"(limits for inputs of this size: {WORK_SECONDS} s, {WORK_MBYTES} MB)")
+            if why:
+                ctx.violation("failing-input", "oracle:hostile.real", {"unit": "hostile.real", "input": enc([roots, m])[-2000:], "why": why},
+                              key="hostile.real:" + why[:40])
+                ctx.oracle_runs += n
+                return
     ctx.oracle_runs += n
 
 
